@@ -374,9 +374,9 @@ var c08Punct = []string{"(", ")", "{", "}", "[", "]", "<", ">", ",", ".", "=", "
 	"\n", " ", "\t", "\x00", "\xff", "\xc3", " ", " ", "-", "+", "\\", "'", "`", "$", "/*", "//", "\r\n", "\ufeff"}
 
 var (
-	c08ReNum = regexp.MustCompile(`-?[0-9]+(?:\.[0-9]+)?(?:[eE][+-]?[0-9]+)?`)
-	c08ReStr = regexp.MustCompile(`"(?:[^"\\\n]|\\.)*"`)
-	c08ReId  = regexp.MustCompile(`[A-Za-z_][A-Za-z0-9_]*`)
+	c08ReNum  = regexp.MustCompile(`-?[0-9]+(?:\.[0-9]+)?(?:[eE][+-]?[0-9]+)?`)
+	c08ReStr  = regexp.MustCompile(`"(?:[^"\\\n]|\\.)*"`)
+	c08ReId   = regexp.MustCompile(`[A-Za-z_][A-Za-z0-9_]*`)
 	c08ReBind = regexp.MustCompile(`(?:[A-Za-z_][A-Za-z0-9_]*|\*)[ \t]*=[ \t]*[^,\n(){}\[\]]+,`)
 )
 
